@@ -148,6 +148,79 @@ example : @dateFromRfc3339 ℚ Toy.numX [.str "2024-02-29T23:59:59.999+00:00".to
     some (.ok (@encode ℚ Toy.numX ⟨daysFromCivil 2024 2 29, 86399999⟩)) :=
   @dateFromRfc3339_rfc3339 ℚ Toy.numX ⟨daysFromCivil 2024 2 29, 86399999⟩ ⟨by decide, by decide, by decide⟩
 
+/-! ### R2. offsets and leap seconds in RFC 3339 -/
+section
+variable {N : Type} [NumX N]
+
+/-- An RFC 3339 text `YYYY-MM-DDTHH:MM:SS±hh:mm` of an existing date of years 0–9999 with offset below 24 h denotes
+    the local clock reading MINUS the offset (the UTC instant; with `TZ=UTC` that is also the local date-time the
+    builtin returns).  A second of `60` (leap second) is accepted and counts as the following second. -/
+theorem dateFromRfc3339_offset (y m d h mi s : Nat) (hy : y ≤ 9999) (hv : validDate y m d = true)
+    (hh : h < 24) (hmi : mi < 60) (hs : s ≤ 60) (neg : Bool) (oh om : Nat) (hoh : oh < 24) (hom : om < 60) :
+    dateFromRfc3339 [(.str (rfc3339Head y m d h mi s (offsetText neg oh om)) : Value N)] =
+      some (.ok (encodeMs ((daysFromCivil y m d * 86400 + ((h * 3600 + mi * 60 + s : Nat) : Int)) * 1000 -
+        (if neg then -1 else 1) * ((oh * 3600 + om * 60 : Nat) : Int) * 1000))) := by
+  obtain ⟨_, hmd⟩ := (validDate_iff y m d).1 hv
+  have hb := validDate_bounds hv
+  obtain ⟨hd1, hd2⟩ := days_range0 y m d hmd (by omega) (by omega)
+  rw [dateFromRfc3339, rfc3339Utc_head y m d h mi s (by omega) (by omega) (by omega) (by omega) (by omega) (by omega),
+    if_pos hv, rfc3339Tail_offset _ h mi s hd1 hd2 hh hmi hs neg oh om hoh hom]
+  simp only [Except.map, fixedToNaive, finish]
+  rw [shiftNDT_millis]
+  simp only [NDT.millis, NDT.timestamp]
+  congr 3
+  by_cases h60 : s = 60
+  · subst h60; cases neg <;> simp <;> omega
+  · have : min s 59 = s := by omega
+    cases neg <;> simp [h60, this]
+
+end
+
+/-- 1996-12-19T16:39:57-08:00 (the example of RFC 3339) is 1996-12-20T00:39:57Z -/
+example : rfc3339Head 1996 12 19 16 39 57 (offsetText true 8 0) = "1996-12-19T16:39:57-08:00".toList := by decide +kernel
+example : ((daysFromCivil 1996 12 19 * 86400 + ((16 * 3600 + 39 * 60 + 57 : Nat) : Int)) * 1000 - (-1) * ((8 * 3600 + 0 * 60 : Nat) : Int) * 1000) =
+    (daysFromCivil 1996 12 20 * 86400 + 39 * 60 + 57) * 1000 := by decide
+/-- the leap second 2016-12-31T23:59:60Z is the instant 2017-01-01T00:00:00Z -/
+example : (rfc3339Utc "2016-12-31T23:59:60Z".toList).toOption.map NDT.millis = some (daysFromCivil 2017 1 1 * 86400000) := by
+  decide +kernel
+/-- fractions of any length are truncated (not rounded) to the millisecond by `Value::from` -/
+example : (rfc3339Utc "2024-02-29T00:00:00.9999999999999Z".toList).toOption.map NDT.millis =
+    some (daysFromCivil 2024 2 29 * 86400000 + 999) := by decide +kernel
+/-- rejected: no offset, month 13, 30 February, offset 24:00, hour 24, trailing text, lower-case separator is fine -/
+example : (rfc3339Utc "2024-02-29T00:00:00".toList) = .error .tooShort := by decide +kernel
+example : (rfc3339Utc "2024-13-01T00:00:00Z".toList) = .error .outOfRange := by decide +kernel
+example : (rfc3339Utc "2024-02-30T00:00:00Z".toList) = .error .outOfRange := by decide +kernel
+example : (rfc3339Utc "2024-02-29T00:00:00+24:00".toList) = .error .outOfRange := by decide +kernel
+example : (rfc3339Utc "2024-02-29T24:00:00Z".toList) = .error .outOfRange := by decide +kernel
+example : (rfc3339Utc "2024-02-29T00:00:00Z ".toList) = .error .tooLong := by decide +kernel
+example : (rfc3339Utc "2024-02-29t00:00:00z".toList).toOption.map NDT.millis = some (daysFromCivil 2024 2 29 * 86400000) := by
+  decide +kernel
+/-- RFC 2822: obsolete zone names, two-digit years, comments, optional and checked day-of-week -/
+example : (rfc2822Utc "Wed, 18 Feb 2015 23:16:09 GMT".toList).toOption.map NDT.millis =
+    some ((daysFromCivil 2015 2 18 * 86400 + 23 * 3600 + 16 * 60 + 9) * 1000) := by decide +kernel
+example : (rfc2822Utc "18 Feb 15 23:16 EST (a (nested) comment)".toList).toOption.map NDT.millis =
+    some ((daysFromCivil 2015 2 19 * 86400 + 4 * 3600 + 16 * 60) * 1000) := by decide +kernel
+example : (rfc2822Utc "Thu, 18 Feb 2015 23:16:09 GMT".toList) = .error .impossible := by decide +kernel   -- it was a Wednesday
+example : (rfc2822Utc "18 Feb 2015 23:16:09".toList) = .error .tooShort := by decide +kernel              -- zone is mandatory
+
+/-! ### R3. fractional seconds of any length -/
+
+/-- `.d₁…dₖ` with 1 ≤ k ≤ 9 digits denotes `d₁…dₖ · 10^(9−k)` nanoseconds (`digitsVal`: the decimal value) -/
+theorem fraction_up_to_nine_digits (ds : List Nat) (hds : ∀ d ∈ ds, d < 10) (h1 : 1 ≤ ds.length) (h9 : ds.length ≤ 9)
+    (rest : Str) (hrest : NoDigitHead rest) :
+    nanosecond (digitsText ds ++ rest) = .ok (rest, digitsVal ds 0 * 10 ^ (9 - ds.length)) :=
+  nanosecond_short ds hds h1 h9 rest hrest
+
+/-- with more than nine digits the tenth and later ones are skipped: the value is TRUNCATED to the nanosecond; the
+    builtin then truncates to the millisecond (`NDT.millis`: `nano / 1000000`).  Nothing is ever rounded. -/
+theorem fraction_beyond_nine_digits (ds more : List Nat) (hds : ∀ d ∈ ds, d < 10) (hm : ∀ d ∈ more, d < 10)
+    (h9 : ds.length = 9) (rest : Str) (hrest : NoDigitHead rest) :
+    nanosecond (digitsText (ds ++ more) ++ rest) = .ok (rest, digitsVal ds 0) :=
+  nanosecond_long ds more hds hm h9 rest hrest
+
+example : NoDigitHead ['Z'] := by intro c r h; cases h; decide
+example : digitsText [9, 9, 9, 9] = ['9', '9', '9', '9'] ∧ digitsVal [9, 9, 9, 9] 0 * 10 ^ (9 - 4) = 999900000 := by decide
+
 /-! ## T. Totality: no panic outcome, and exactly where the model is silent -/
 
 section
@@ -449,6 +522,30 @@ theorem dateToString_invalid_format (st : Stamp y m d h mi s ml) (fmt : Str)
   rw [dateToString_stamp st, (strftime_fails_iff _ fmt).2 hf]; rfl
 
 end
+
+/-! ### S2. the parsing direction with a custom format -/
+section
+variable {N : Type} [NumX N] [LawfulTimeNum N]
+variable {y : Int} {m d h mi s ml : Nat}
+
+/-- `string_to_datetime(date_to_string(f, x), f) = x` for `f = "%Y-%m-%d %H:%M:%S%.3f"`, milliseconds included -/
+theorem string_roundtrip_ms (st : Stamp y m d h mi s ml) (txt : Str)
+    (hp : dateToString [.str fmtMs, (encode (stampDT y m d h mi s ml) : Value N)] = some (.ok (.str txt))) :
+    stringToDatetime [(.str txt : Value N), .str fmtMs] = some (.ok (encode (stampDT y m d h mi s ml))) := by
+  obtain ⟨e1, e2, e3, e4, e5, e6, e7⟩ := stamp_components st
+  rw [dateToString_stamp st, strftime_ms, e1, e2, e3, e4, e5, e6, e7] at hp
+  have : txt = datetimeText y m d h mi s ++ '.' :: pad 3 ml := by
+    simp only [fmtResult, Option.some.injEq, Except.ok.injEq, Value.str.injEq] at hp; exact hp.symm
+  subst this
+  rw [stringToDatetime_ms y m d h mi s ml (by have := st.y1; omega) st.y2 st.valid st.hh st.hmi st.hs st.hml]
+  have : (h * 3600 + mi * 60 + s) * 1000 + ml = ((h * 60 + mi) * 60 + s) * 1000 + ml := by omega
+  simp only [stampDT, this]
+
+end
+
+example : fmtMs = "%Y-%m-%d %H:%M:%S%.3f".toList := by decide
+example : okStr? ((dateToString [.str fmtMs, .num 13734.424444594908]).getD (.error .indexNegative)) =
+    some "2007-08-09 10:11:12.013".toList := by decide +kernel
 
 /-! ### non-vacuity of part S on the driver's doubles -/
 example : okStr? ((dateToString [sOf "%Y-%m-%dT%H:%M:%S%.3f", .num 13734.424444594908]).getD (.error .indexNegative)) =
